@@ -88,7 +88,8 @@ Section Top.
                  hdw (fst (match pl_apply pl with [] => ([], 0) | _ => apply_tasks sc 0 0 (pl_apply_layers pl) end) ++ tail) = []).
     { intros tail HT HH NT. destruct (pl_apply pl); [split; assumption|]. split.
       - apply (wsch_apply sc pl); [|exact NT|exact HH|exact HT].
-        intros layer q. rewrite plan_of_eq. apply bp_local_ok'.
+        intros layer q. rewrite plan_of_eq.
+        apply bp_local_ok'; [apply locals_of_NoDup|apply pobjs_NoDup|apply pobjs_disj]; exact HND.
       - apply hdw_apply. exact HH. }
     destruct (match pl_apply pl with [] => ([], 0) | _ => apply_tasks sc 0 0 (pl_apply_layers pl) end) as [at_ kw].
     cbn [fst] in AT. destruct (PT kw) as [P1 [P2 P3]]. cbv zeta in *.
@@ -124,7 +125,7 @@ Section Top.
       constructor.
       - rewrite ST. exact I.
       - apply allp_RL; [|exact ST]. unfold allp. rewrite ET. apply allp_register. unfold allp. rewrite E2. constructor.
-      - rewrite SK. intros o [].
+      - rewrite SK. intros _ o [].
       - intros j _. rewrite ST. reflexivity.
       - intros j st a u T. rewrite ST. split.
         + intros Hj. rewrite (TVA j Hj) in T. injection T as <- <- <-. split; reflexivity.
